@@ -2,7 +2,7 @@
    subsystem), theorems only.  Model: C06/Model.v ([step true] = the code with fixes/F06.patch,
    [step false] = the original code).  Each theorem is closed by a lemma of Proofs / Order / Limits /
    InOrder / Exact / Refute and followed by Print Assumptions. *)
-From CF Require Import Common.Bytes C06.Model C06.Proofs C06.Order C06.Limits C06.InOrder C06.Exact C06.Refute C06.DeckModel C06.DeckProofs C06.DeckRefute C06.InfoModel C06.InfoProofs C06.InfoEnum C06.InfoRefute C06.Wrapper C06.Reentrant C06.DeckSlot.
+From CF Require Import Common.Bytes C06.Model C06.Proofs C06.Order C06.Limits C06.InOrder C06.Exact C06.Refute C06.DeckModel C06.DeckProofs C06.DeckRefute C06.InfoModel C06.InfoProofs C06.InfoEnum C06.InfoRefute C06.Wrapper C06.Reentrant C06.DeckSlot C06.Early.
 Open Scope Z_scope.
 
 (* ---------------------------------------------------------------- protocol limits *)
@@ -424,3 +424,41 @@ Theorem C06_deck_early_return_refuted :
   ~ In (inr DRaise) (snd (drun true 6 (dm_init, c_init) early_history)).
 Proof. exact deck_early_return_refuted. Qed.
 Print Assumptions C06_deck_early_return_refuted.
+
+(* ---------------------------------------------------------------- Wave 14: early replies *)
+(* Memory.read() is two steps: registration of the request, then sending of its first packet; the incoming-packet thread
+   may handle packets (the reply to that very packet included) between the send and the next statement of the caller
+   (C06/Early.v, [read_two_step true] = the code).  Whatever it handles there, the result is the one of the atomic read()
+   followed by the same packets — so every theorem about [run] holds for early replies as well. *)
+Theorem C06_early_read_is_read_then_packets : forall c i a n early,
+  wf_event (ERead i a n) -> rd_get i (c_reads c) = None ->
+  let r := new_rreq c i a n in
+  fst (read_two_step true c i a n early) = fst (run true c (ERead i a n :: early)) /\
+  snd (read_two_step true c i a n early) = read_pkt r :: snd (run true (register c r) early) ++ [ORet true] /\
+  snd (run true c (ERead i a n :: early)) = [read_pkt r; ORet true] ++ snd (run true (register c r) early).
+Proof. exact early_read_is_read_then_packets. Qed.
+Print Assumptions C06_early_read_is_read_then_packets.
+
+(* A reply exists only after the send, hence after the registration: it finds its record; the honest reply to the first
+   packet is taken (next chunk requested or the read notified), for any data. *)
+Theorem C06_early_reply_finds_its_record : forall c i a n dat,
+  wf_event (ERead i a n) -> rd_get i (c_reads c) = None -> bytes dat ->
+  let r := new_rreq c i a n in
+  rd_get i (c_reads (register c r)) = Some r /\
+  exists c' o, step true (register c r) (EPkt ChRead (i :: le_bytes 4 a ++ [0] ++ dat)) = (c', [o]) /\
+               (o = OReadOk (c_next c) i a dat \/ exists r', o = read_pkt r' /\ r_uid r' = c_next c /\ r_data r' = dat).
+Proof. exact early_reply_finds_its_record. Qed.
+Print Assumptions C06_early_reply_finds_its_record.
+
+(* Send before register: the early reply of the first packet (any payload p) is dropped; the request is registered
+   afterwards with nothing on its way: no notification, and every later read of that memory is refused. *)
+Theorem C06_send_before_register_refuted : forall c i a n p,
+  wf_event (ERead i a n) -> rd_get i (c_reads c) = None ->
+  let r := new_rreq c i a n in
+  let res := read_two_step false c i a n [EPkt ChRead (i :: p)] in
+  fst res = register c r /\
+  (forall o, In o (snd res) -> o = read_pkt r \/ o = ORet true \/ o = ORaise \/ o = OOutOfDomain) /\
+  rd_get i (c_reads (fst res)) = Some r /\
+  forall a' n', wf_event (ERead i a' n') -> snd (step true (fst res) (ERead i a' n')) = [ORet false].
+Proof. exact send_before_register_refuted. Qed.
+Print Assumptions C06_send_before_register_refuted.
